@@ -23,6 +23,9 @@ type Env struct {
 	fc      *FuncContract
 	depth   int
 	recvT   types.Type
+	// ghostScope: when evaluating a callee's contract at a call site, the
+	// callee's monitor flags (signalled/waited) are fresh unknowns of that call
+	ghostScope map[string]*Term
 }
 
 func (e *Env) with(vars map[string]Val) *Env {
